@@ -194,7 +194,31 @@ def r16_6(ctx):
     ctx.ob("R16.6", "declarations-are-recorded-in-the-own-scope", bad is None and k >= 5, bad or "%d accepted declarations, each one insert: Some(ns) or the un-binding None" % k, "xml5ever tree_builder NamespaceMap::insert_ns")
 
 
+def r16_8(ctx):
+    """bind_attr_qname answers 'drop this attribute' (false) only when check_duplicate_attr found an earlier attribute with the
+    same expanded name; in particular an attribute whose prefix is not bound is reported and KEPT"""
+    key, pcs = nfq.cells(ctx, TB, "::bind_attr_qname")
+    bad = None
+    drops = 0
+    for pc in nfq.feasible(pcs):
+        ret = str(pc["ret"])
+        dup = [v for g, v in pc["guards"].items() if "check_duplicate_attr(" in g]
+        if ret == "false":
+            drops += 1
+            if not dup or dup[-1] is not False:
+                why = [g[:60] for g, v in pc["guards"].items() if not v][:2]
+                bad = "the attribute is dropped on a path where check_duplicate_attr did not answer 'duplicate' (%s): an attribute is lost for another reason than an earlier attribute with the same expanded name (e.g. an unbound prefix)" % why
+        elif ret == "true":
+            if dup and dup[-1] is False:
+                bad = "a duplicate found by check_duplicate_attr is kept"
+        elif "check_duplicate_attr" not in ret:
+            bad = "bind_attr_qname answers %s" % ret[:60]
+    ctx.ob("R16.8", "attribute-dropped-only-as-duplicate", bad is None and drops >= 1, bad or "false only where check_duplicate_attr answered false", "xml5ever tree_builder bind_attr_qname")
+
+
 def run(ctx):
+    ctx.rule("R16.8", "an attribute is dropped only as a duplicate by expanded name - never because its prefix is unbound")
+    ctx.guard("R16.8", "drop-only-duplicates", lambda: r16_8(ctx))
     ctx.rule("R16.7", "the tokenizer's finish_attribute empties the value buffer on every path: a dropped duplicate's value never leaks into the next (possibly xmlns) attribute")
     from . import tokrules as _tr7
     ctx.guard("R16.7", "attr-buffers/xml", lambda: _tr7.attr_buffers_emptied(ctx, "R16.7", "xml"))
